@@ -46,10 +46,10 @@ for p in props:
             + '. A violated obligation names the function, construct and path. Not decided: ' + NOT_DECIDED.get(pid, 'the behavioural remainder') + '.')
     checks.append({
         'property_id': pid,
-        'quick_cmd': './bin/tmverif -prop %s -tier quick' % pid,
-        'thorough_cmd': './bin/tmverif -prop %s -tier thorough' % pid,
+        'quick_cmd': './check %s quick' % pid,
+        'thorough_cmd': './check %s thorough' % pid,
         'evidence_file': '/verif/evidence/%s.json' % pid,
-        'replay_cmd_template': './bin/tmverif -prop %s -replay {path}' % pid,
+        'replay_cmd_template': './check %s quick -replay {path}' % pid,
         'engine': 'tmverif',
         'level_claimed': {'category': 'other', 'text': text, 'design_ref': 'DESIGN.md §4 ' + pid},
         'level_note': 'Trusted base: go/types, go/ssa (x/tools v0.29.0), the scope table and allow-lists frozen in /verif/tool. The rules are necessary, not sufficient: a pass means the mechanisms the property rests on are intact on all paths, not that the behaviour is proved.',
